@@ -315,6 +315,12 @@ def build_trace(job):
     specials = [0, 1, 2, 3, r - 1, r, r + 1, 2 * p - r, rng.getrandbits(255), rng.getrandbits(640) | (1 << 639)]
     if not quick:
         specials += [rng.getrandbits(k) for k in (64, 128, 254, 256, 381, 512)] + [r - 2, 2 * r, p, ell * r]
+    # all-ones, single-bit and neighbouring scalars at word boundaries and beyond the float mantissa (appended, so
+    # that the indices used below stay what they were)
+    kk = rng.choice([49, 53, 63]), rng.choice([64, 100, 128]), rng.choice([200, 254, 255])
+    specials += [(1 << k) - 1 for k in kk] + [1 << kk[0], (1 << kk[1]) + 1, (1 << 53) - 1]
+    if not quick:
+        specials += [(1 << k) - 1 for k in (49, 50, 52, 53, 63, 64, 127, 255, 256)] + [1 << 64, (1 << 255) + 1]
     muls = []
     for n in specials:
         muls.append(B.prod("mul", lambda: m.multiply(B.R(g), n), a=g, n=n))
